@@ -54,7 +54,7 @@ pub fn flush_known(run: &mut Run) {
     let seen: Vec<String> = SEEN.lock().unwrap().drain(..).collect();
     for id in seen {
         if !run.known_hit.contains(&id) {
-            println!("KNOWN-FINDING: property={} {} [{}]", run.prop, run.known().what(&id), id);
+            crate::engine::known_line(run.prop, &run.known().what(&id), &id);
             run.known_hit.push(id);
         }
     }
